@@ -18,6 +18,24 @@ CHECKS = {
  "C08": dict(cat="exploration", ref="5.8", technique="round-trip property (tokens -> text -> tokens, raw -> literal -> decoded) with exhaustive enumeration of short string contents",
    text="generated token sequences over the whole vocabulary with every separator choice maximal munch allows must lex back to exactly themselves; all 22 621 string contents of <=4 raw units must decode as documented; illegal characters / unterminated strings must be rejected, not truncated",
    note="trusted: the harness's separator-necessity predicate (derived from the token definitions) and decode function D"),
+ "C09": dict(cat="exploration", ref="5.9", technique="differential testing against the reference interpreter + metamorphic relations (consistent renaming, unused shadowing declaration, poisoning with an undeclared name)",
+   text="programs of the scopes profile against the reference interpreter; renaming one declaration with exactly its uses and inserting an unused shadowing declaration must not change the observation; replacing any use by an undeclared name must give a ReferenceError before any output",
+   note="trusted: the reference resolver (static scoping rule of DESIGN.md 4.1); U4/U5 excluded by construction"),
+ "C10": dict(cat="exploration", ref="5.10", technique="metamorphic testing (program vs transformed program, no reference interpreter)",
+   text="closed programs compared with their variants under T1 (top level into a function), T2 (literal operand into a variable), T3 (mirrored operands), T4 (prepended literals) and random combinations; opcode multisets are measured to show that different implementation choices were actually exercised",
+   note="trusted: the four transformations are semantics-preserving for closed programs under the README's rules"),
+ "C11": dict(cat="exploration", ref="5.11", technique="exhaustive template enumeration + differential testing + metamorphic residue relation (observation independent of the iteration count)",
+   text="all chains of nested constructs up to depth 4/5 with every admissible early exit and loop counts {0,1,2,17} against the reference interpreter; random control-flow programs; probe code after loops of 1..200 000 iterations must behave identically",
+   note="trusted: reference interpreter; U8 (loop values masked). Open known finding: stop/volgende from inside an operand position leave the pending operands on the stack"),
+ "C12": dict(cat="exploration", ref="5.12", technique="differential property-based testing with a tracing identity around arguments + directed boundary programs",
+   text="programs of the calls profile (recursion, functions as values, calls in every expression context, traced argument evaluation order) against the reference interpreter; directed recursion up to depth 70 000 must give the exact value or an error",
+   note="trusted: reference interpreter; U3, U15, U17"),
+ "C13": dict(cat="exploration", ref="5.13", technique="model-based testing of operation sequences (reference model with shared mutable arrays) + exhaustive index grid + state snapshot at the failing operation",
+   text="operation sequences over four variables (literals, aliases, reads, writes, lengte, mutating function, nesting) with the complete index x length grid; result graph incl. sharing must equal the model; after a failing operation the globals must equal the model state before it",
+   note="trusted: reference interpreter as model; exit-snapshot hook H7; U21"),
+ "C14": dict(cat="exploration", ref="5.14", technique="differential testing of every builtin over a value-shape grid + round-trip and idempotence properties + single-pass print oracle",
+   text="7 builtins x ~150 value shapes x 0-3 arguments against the reference; int(string(n)) over the lattice, float(string(x)) over generated finite floats, T(T(v)) = T(v); print with generated formats against a single-pass oracle",
+   note="trusted: reference interpreter's builtins; host float formatting/parsing; U12/U16/U20 only totality"),
  "C15": dict(cat="exploration", ref="5.15", technique="property-based testing: round-trip + equality oracle over proptest-generated and exhaustively enumerated values",
    text="round trip (value -> word -> value) and pairwise equality against a structural oracle over generated values; the int lattice, the descriptor boundary grid and the 200x200 equality matrix are enumerated completely",
    note="trusted: the harness's value specification type and its equality; arrays compared only with non-arrays (U11)"),
